@@ -262,10 +262,50 @@ func (g *rtG) table(n int) *rtTable {
 			t.defs = append(t.defs, L(SL(ms), S(pat.text()), B(false)))
 			t.pats = append(t.pats, pat)
 			t.paths = append(t.paths, pat.text())
+			if twin := g.sameShape(pat); twin != nil && r.Chance(1, 5) {
+				// a second route of the same shape - same literals, same variable NAMES - whose variables accept other
+				// values: both are routes of their own (only the pattern with the regexes identifies a route)
+				t.meths = append(t.meths, ms)
+				t.defs = append(t.defs, L(SL(ms), S(twin.text()), B(false)))
+				t.pats = append(t.pats, twin)
+				t.paths = append(t.paths, twin.text())
+				i++
+			}
 		}
 		t.meths = append(t.meths, ms)
 	}
 	return t
+}
+
+// sameShape copies a pattern and gives every freely named variable another regex; nil when there is no such variable
+func (g *rtG) sameShape(p *rtPat) *rtPat {
+	changed := false
+	cp := func(levels [][]rtPart) [][]rtPart {
+		var out [][]rtPart
+		for _, seg := range levels {
+			var ns []rtPart
+			for _, q := range seg {
+				if q.v != nil && q.v.name == "" {
+					for tries := 0; tries < 20; tries++ {
+						vk := &rtVarKinds[g.r.Intn(len(rtVarKinds))]
+						if vk.name == "" && vk.re != q.v.re {
+							q.v = vk
+							changed = true
+							break
+						}
+					}
+				}
+				ns = append(ns, q)
+			}
+			out = append(out, ns)
+		}
+		return out
+	}
+	twin := &rtPat{req: cp(p.req), opt: cp(p.opt), optSlash: append([]bool{}, p.optSlash...)}
+	if !changed {
+		return nil
+	}
+	return twin
 }
 
 func (g *rtG) probePath(t *rtTable) string {
